@@ -37,6 +37,18 @@ def check_strtobool(s: str) -> bool:
     return run_strtobool(s) == spec_strtobool(s)
 
 
+def check_strtobool_case(w: int, mask: int) -> bool:
+    """
+    pre: 0 <= w < 12 and 0 <= mask < 32
+    post: __return__ == True
+    """
+    # every spelling of every documented word in any mix of upper and lower case letters (the word and the case mask are
+    # symbolic; strings of this shape are too rare for the search over arbitrary short strings above)
+    word = (TRUE_WORDS + FALSE_WORDS)[w]
+    s = "".join(ch.upper() if (mask >> i) & 1 else ch for i, ch in enumerate(word))
+    return run_strtobool(s) == (1 if w < 6 else 0)
+
+
 def check_angmom_roundtrip(n: int) -> bool:
     """
     pre: 0 <= n < 25
